@@ -9,8 +9,10 @@ import (
 
 	"github.com/cloudflare/circl/dh/x25519"
 	"github.com/cloudflare/circl/dh/x448"
+	"github.com/cloudflare/circl/hpke"
 	"github.com/cloudflare/circl/kem"
 	"github.com/cloudflare/circl/kem/schemes"
+	refhpke "github.com/cloudflare/circl/zz_verif/ref/hpke"
 	"github.com/cloudflare/circl/zz_verif/vlib"
 	"pgregory.net/rapid"
 )
@@ -136,4 +138,59 @@ func tailOf(b []byte, n int) []byte {
 		return b
 	}
 	return b[len(b)-n:]
+}
+
+// TestC01HPKEDerivation: the HPKE KEMs' DeriveKeyPair and deterministic encapsulation against the
+// independent RFC 9180 reference (ref/hpke): keys, enc and shared secret are functions of the seeds
+// that the specification fixes, not only self-consistent ones.
+func TestC01HPKEDerivation(t *testing.T) {
+	defer vlib.Done()
+	for _, id := range refhpke.KEMIDs() {
+		id := id
+		k := hpke.KEM(id)
+		if !k.IsValid() {
+			continue
+		}
+		s := k.Scheme()
+		ref := refhpke.KEMByID(id)
+		sub := "hpke-derivation/" + s.Name()
+		cost := 1
+		if id == 0x0011 || id == 0x0012 || id == 0x0021 {
+			cost = 3
+		}
+		vlib.Check(t, vlib.N(60, 600)/cost, func(t *rapid.T) {
+			seed := vlib.EdgeBytes(t, s.SeedSize(), "seed")
+			eseed := vlib.EdgeBytes(t, s.EncapsulationSeedSize(), "eseed")
+			vlib.Eval(sub)
+			rsk, rpk, rerr := ref.DeriveKeyPair(seed)
+			var pk kem.PublicKey
+			var sk kem.PrivateKey
+			if p, st := vlib.Catch(func() { pk, sk = s.DeriveKeyPair(seed) }); p != nil {
+				if rerr == nil {
+					vlib.Report(t, "C01/panic/"+s.Name()+"/DeriveKeyPair/"+vlib.PanicClass(p), fmt.Sprintf("seed=%x: %v (the reference derives a key)\n%s", seed, p, st))
+				} else {
+					vlib.Class(sub, "no-key-for-this-seed(reference agrees)")
+				}
+				return
+			}
+			if rerr != nil {
+				vlib.Class(sub, "reference-derives-no-key")
+				return
+			}
+			pkb, _ := pk.MarshalBinary()
+			skb, _ := sk.MarshalBinary()
+			if !bytes.Equal(pkb, rpk) || !bytes.Equal(skb, rsk) {
+				vlib.Report(t, "C01/hpke-derivation/"+s.Name()+"/key", fmt.Sprintf("seed=%x: DeriveKeyPair gives pk=%.40x… sk=%.20x…, RFC 9180 gives pk=%.40x… sk=%.20x…", seed, pkb, skb, rpk, rsk))
+				return
+			}
+			rss, renc, rerr := ref.Encap(rpk, eseed)
+			ct, ss, err := s.EncapsulateDeterministically(pk, eseed)
+			if (err == nil) != (rerr == nil) || (err == nil && (!bytes.Equal(ct, renc) || !bytes.Equal(ss, rss))) {
+				vlib.Report(t, "C01/hpke-derivation/"+s.Name()+"/encapsulation", fmt.Sprintf("seed=%x eseed=%x: err=%v (reference %v), enc/ss equal the reference: %v/%v", seed, eseed, err, rerr, bytes.Equal(ct, renc), bytes.Equal(ss, rss)))
+				return
+			}
+			vlib.NonTrivial(sub, "", seed, eseed)
+			vlib.Sample(sub, "ref", fmt.Sprintf("%s seed=%x…: key pair, enc and shared secret equal ref/hpke", s.Name(), seed[:4]))
+		})
+	}
 }
